@@ -99,3 +99,6 @@ func SentOn[T any](ch chan T) bool { return false }
 // current loop iteration (events after the last loop head).
 func CalledInIter(s string) bool                        { return false }
 func CalledWithInIter[T any](s string, i int, v T) bool { return false }
+
+// SameObject: a and b are the same map / slice / channel object (reference equality).
+func SameObject[T any](a, b T) bool { return false }
